@@ -2,8 +2,9 @@
 (* Model-checking wrapper for Sinex: exhaustive check on small documents     *)
 (* (histories hidden by a VIEW: no invariant reads h or ck) and behaviour    *)
 (* generation (history in the state: the state space is the tree of paths).  *)
-EXTENDS Sinex
+EXTENDS Sinex, Randomization
 CONSTANTS D,        \* depth of generated behaviours (number of editor calls)
+          NRand,    \* number of random removal sets drawn by TLC (seeded by -seed) for the large documents
           Rot       \* TRUE: emit RemoveStns(S) only for the start variant S is assigned to (sweep of all subsets)
 
 \* site 2 has two solution numbers, site 3 a single solution numbered 3
@@ -25,13 +26,21 @@ RECURSIVE SubsetIdx(_)
 SubsetIdx(S) == IF S = {} THEN 0 ELSE LET s == CHOOSE x \in S : TRUE IN 2 ^ (s - 1) + SubsetIdx(S \ {s})
 Selected == (Rot /\ Len(h) >= 1 /\ h[1][1] = "RemoveStns") => SubsetIdx(h[1][2]) % 4 = VarIdx(start)
 StartParams(x) == [ent |-> x.ent, vel |-> x.vel, tri |-> x.tri, bd |-> x.bd, comm |-> x.comm]
-Emit == IF Len(h) = D THEN PrintT(<<"BEH", StartParams(start), h>>) ELSE TRUE
+\* removal sets are printed as ascending sequences
+RECURSIVE SeqOf(_)
+SeqOf(S) == IF S = {} THEN <<>> ELSE LET m == CHOOSE x \in S : \A y \in S : x <= y IN <<m>> \o SeqOf(S \ {m})
+Emit == IF Len(h) = D THEN PrintT(<<"BEH", StartParams(start), [k \in 1..Len(h) |-> <<h[k][1], SeqOf(h[k][2]), h[k][3]>>]>>)
+        ELSE TRUE
 Bound == Len(h) <= D /\ EditorsOnly /\ Selected /\ Emit
 
 \* generation on large documents: a fixed family of removal sets instead of all 4095
 PickSets == {{}, {1}, {12}, {3}, {2, 3, 4}, {1, 3, 5, 7, 9, 11}, {2, 4, 6, 8, 10, 12}, 1..11, 2..12, {1, 2, 4, 5, 6, 7, 8, 9, 10, 11, 12}}
 NextPick == (\E S \in PickSets : RemoveStns(S)) \/ RemoveVel \/ RemoveZeros
 SpecPick == Init /\ [][NextPick]_vars
+\* random removal sets drawn once per run by TLC itself
+RandSets == RandomSetOfSubsets(NRand, 6, 1..12) \ {1..12}
+NextRand == (\E S \in RandSets : RemoveStns(S)) \/ RemoveVel \/ RemoveZeros
+SpecRand == Init /\ [][NextRand]_vars
 \* sweep of every removal set (depth 1)
 NextStns == \E S \in SUBSET SitesOf(d) : RemoveStns(S)
 SpecStns == Init /\ [][NextStns]_vars
